@@ -236,13 +236,18 @@ int shim_real_close(int fd) { return __real_close(fd); }
 
 /* C05: inside a library call on a non-blocking socket, I/O on a descriptor
    without O_NONBLOCK may put the thread to sleep */
-static void nb_fd_check(int fd, int flags)
+/* returns extra flags for the call: once the violation is recorded the call itself is made non-blocking, so that the
+   harness survives to report it */
+static int nb_fd_check(int fd, int flags)
 {
     if (!nb_watch || !in_lib)
-	return;
+	return 0;
     int fl = fcntl(fd, F_GETFL);
-    if (fl >= 0 && !(fl & O_NONBLOCK) && !(flags & MSG_DONTWAIT))
+    if (fl >= 0 && !(fl & O_NONBLOCK) && !(flags & MSG_DONTWAIT)) {
 	wait_seen++;
+	return MSG_DONTWAIT;
+    }
+    return 0;
 }
 
 /* ---- data path ---------------------------------------------------------- */
@@ -251,7 +256,7 @@ ssize_t __wrap_send(int fd, const void *buf, size_t len, int flags)
 {
     struct shim_fd *f = get(fd);
     if (f == NULL || !f->tracked || !in_lib) {
-	nb_fd_check(fd, flags);
+	flags |= nb_fd_check(fd, flags);
 	ssize_t r = __real_send(fd, buf, len, flags);
 	ev("send", fd, len, r, r < 0 ? errno : 0);
 	return r;
@@ -297,7 +302,7 @@ ssize_t __wrap_recv(int fd, void *buf, size_t len, int flags)
 {
     struct shim_fd *f = get(fd);
     if (f == NULL || !f->tracked || !in_lib) {
-	nb_fd_check(fd, flags);
+	flags |= nb_fd_check(fd, flags);
 	ssize_t r = __real_recv(fd, buf, len, flags);
 	ev("recv", fd, len, r, r < 0 ? errno : 0);
 	return r;
